@@ -144,7 +144,12 @@ def gen_ff(rng, findings=(), protein=None, multires=None, syntax=None):
         ixns = [dict(sect="bonds", atoms=["BB", "+BB"], params=_params(rng))]
         if rng.random() < 0.4:
             ixns.append(dict(sect="angles", atoms=["BB", "+BB", "++BB"], params=_params(rng)))
-        links.append(dict(kind="backbone", resnames=[b["name"] for b in singles], atoms=[], ixns=ixns))
+        names = [b["name"] for b in singles]
+        mr = next((b for b in blocks if b["name"] == "MR"), None)
+        if mr is not None and mr["syntax"] == "itp":
+            # the residues of a multi-residue copy take part in the backbone as well (their first atom is BB)
+            names += sorted({a["resname"] for a in mr["atoms"]})
+        links.append(dict(kind="backbone", resnames=names, atoms=[], ixns=ixns))
     # a one-residue link that re-defines an interaction of a block (same atoms => same key => override)
     cands = [(b, i) for b in singles if b["syntax"] == "ff" for i in b["ixns"]
              if not i["meta"].get("version") and i["sect"] != "exclusions"]
@@ -220,7 +225,7 @@ def gen_ff(rng, findings=(), protein=None, multires=None, syntax=None):
                 # than every other link: the pattern link, which also writes pairs, is dropped)
                 links[:] = [l for l in links if l["kind"] not in ("pattern", "multiterm")]
                 links.append(dict(kind="mention", resnames=[block["name"]], atoms=[],
-                                  ixns=[dict(sect="angles", atoms=["BB", last, "+BB"], params=_params(rng)),
+                                  ixns=[dict(sect="angles", atoms=[last, "BB", "+BB"], params=_params(rng)),
                                         dict(sect="pairs", atoms=["BB", "+BB"], params=_params(rng, "pairs"))],
                                   edges=[("BB", "+BB")]))
     # dangling interactions of .itp blocks (become links): last atom -- first atom of the next residue
